@@ -54,6 +54,27 @@ impl SymTable {
     { unimplemented!() }
 }
 
+// ---- SymTable::for_function_call (contract proved in unit sym_table, restated over this model's keys; the generic iterator
+// argument is instantiated at Vec): parameters are bound in order, a name that repeats an earlier one (same folded key) is an error
+pub open spec fn bound_k(s: Seq<(&VariableName, Val)>, k: int, kx: NameKey) -> Option<Val> decreases k {
+    if k <= 0 { None } else if key(*s[k - 1].0) == kx { Some(s[k - 1].1) } else { bound_k(s, k - 1, kx) }
+}
+pub open spec fn first_dup_k(s: Seq<(&VariableName, Val)>, i: int) -> int decreases s.len() - i {
+    if i < 0 || i >= s.len() { s.len() as int } else if bound_k(s, i, key(*s[i].0)) is Some { i } else { first_dup_k(s, i + 1) }
+}
+/// the scope holds exactly the parameters, each with its argument value
+pub open spec fn params_scope(sc: Scope, s: Seq<(&VariableName, Val)>) -> bool {
+    forall|kx: NameKey| (#[trigger] sc.contains_key(kx) <==> bound_k(s, s.len() as int, kx) is Some)
+        && (sc.contains_key(kx) ==> sc[kx] == SymTableEntry::Var(bound_k(s, s.len() as int, kx)->Some_0))
+}
+impl SymTable {
+    #[verifier::external_body]
+    pub fn for_function_call<'a>(args: Vec<(&'a VariableName, Val)>) -> (r: Result<SymTable, SymTableError>)
+        ensures first_dup_k(args@, 0) == args@.len() ==> r is Ok && params_scope(r->Ok_0.view(), args@),
+            first_dup_k(args@, 0) < args@.len() ==> r == Err::<SymTable, SymTableError>(SymTableError::DuplicateFunctionArgName(*args@[first_dup_k(args@, 0)].0)),
+    { unimplemented!() }
+}
+
 pub struct Environment {
     pub symbols: Vec<SymTable>,
     pub last_access: Option<VariableName>,
